@@ -7,15 +7,68 @@ use crate::util::Rng;
 
 pub struct C15;
 
+/// `[g, g]` / `[g, g, g]` with g one closure goal value whose body makes choices on variables of its own.
+fn reuse_case(seed: u64, index: u64) -> CaseOut {
+    use super::common::*;
+    use crate::ast::*;
+    use crate::canon::*;
+    use crate::run::*;
+    use crate::term::T;
+    let mut out = CaseOut::default();
+    let mut rng = Rng::for_case(seed, "reuse", index);
+    let v = |i: u32| T::Var(i);
+    let k = |rng: &mut Rng| T::Int(rng.range(1, 4));
+    // body: |t| { <choice on t>, member(t, q0) } with q0 a list of 2-3 unbound cells: every invocation
+    // chooses a value for ITS t and stores it in one of the cells
+    let choice = match rng.below(3) {
+        0 => G::Call(Rel::Member, vec![v(10), T::list((0..2 + rng.below(2)).map(|_| k(&mut rng)).collect())]),
+        1 => G::Conde(vec![vec![G::Eq(v(10), k(&mut rng))], vec![G::Eq(v(10), k(&mut rng))]]),
+        _ => G::Match(MatchKind::Match, T::list(vec![k(&mut rng), k(&mut rng)]), vec![Arm { pats: vec![T::improper(vec![v(11)], T::Any), T::list(vec![T::Any, v(11)])], body: vec![G::Eq(v(10), v(11))] }]),
+    };
+    let body = vec![G::Fresh(vec![10], vec![choice, G::Call(Rel::Member, vec![v(10), v(0)])])];
+    let clo = G::Closure(body);
+    let n = 2 + rng.below(2);
+    let mut goals: Vec<G> = vec![G::Eq(v(0), T::list((0..n).map(|i| v(20 + i as u32)).collect()))];
+    // the same closure goal written n times in a row: the builder builds it once and clones the VALUE
+    let mut conj = vec![];
+    for _ in 0..n {
+        conj.push(clo.clone());
+    }
+    goals.push(G::Conj(conj));
+    let prog = Program::new(vec![0], vec![G::Fresh((20..20 + n as u32).collect(), goals)]);
+    let cfg = RunCfg { max_answers: 3000, step_budget: 500_000, extra_next: 1, display: true };
+    let real = run_query(&prog, &cfg);
+    out.count("reuse_programs", 1);
+    if !usable(&real, &mut out, &prog, "reuse query") {
+        return out;
+    }
+    match ref_answers(&prog, false) {
+        Ok(r) => {
+            out.count("reuse_reference_compared", 1);
+            let uni = universe(&prog, &[]);
+            if cut_at_cap(real.ended, real.answers.len(), true, r.len()) {
+                out.count("comparisons_skipped_answer_cap", 1);
+            } else if let Cmp::Different(why) = compare_multisets(&real.answers, &r, &uni) {
+                out.violate("M-ref", "a closure goal value used several times: its invocations do not have variables of their own", format!("{} | real {} | reference {}", why, show_answers(&real.answers), show_answers(&r)), format!("{}", prog));
+            }
+            if r.len() >= 2 {
+                out.distinct.push(program_key(&prog));
+            }
+        }
+        Err(e) => out.inconclusive.push(format!("reference: {:?}", e)),
+    }
+    out
+}
+
 impl Check for C15 {
     fn id(&self) -> &'static str {
         "C15"
     }
     fn gens(&self) -> Vec<GenSpec> {
-        vec![]
+        vec![GenSpec { name: "reuse", quick: 1500, thorough: 60_000 }]
     }
     fn rule(&self) -> &'static str {
-        "Programs with variables in many nested and sibling scopes: fresh blocks nested to depth 3, match arms with alternatives, query variables, and two generated recursive relations (`fn rel(..) -> InferredGoal { proto_vulcan_closure!(..) }`) whose bodies introduce fresh variables (one through a fresh block, one through a match arm plus fresh) and are unfolded once per list element (0-3 times on one path), called once or twice in one conjunction; plus pattern-matching programs where pattern variables can shadow the scrutinee. Every AST (variables are unique ids) is emitted as Rust source TWICE: once with all names distinct and once with maximal legal name clashes (the same name re-used in nested fresh scopes, sibling scopes, pattern arms, query variables, relation parameters and relation-local variables). Both are compiled against the current tree and run: their answer sequences must be identical (alpha-renaming invariance), and both must equal the reference evaluation, whose variables are unique ids (the all-distinct semantics). Distinct = distinct (AST, naming); non-trivial = the reference has at least one answer."
+        "Programs with variables in many nested and sibling scopes: fresh blocks nested to depth 3, match arms with alternatives, query variables, and two generated recursive relations (`fn rel(..) -> InferredGoal { proto_vulcan_closure!(..) }`) whose bodies introduce fresh variables (one through a fresh block, one through a match arm plus fresh) and are unfolded once per list element (0-3 times on one path), called once or twice in one conjunction; plus pattern-matching programs where pattern variables can shadow the scrutinee. Every AST (variables are unique ids) is emitted as Rust source TWICE: once with all names distinct and once with maximal legal name clashes (the same name re-used in nested fresh scopes, sibling scopes, pattern arms, query variables, relation parameters and relation-local variables). Both are compiled against the current tree and run: their answer sequences must be identical (alpha-renaming invariance), and both must equal the reference evaluation, whose variables are unique ids (the all-distinct semantics). 'reuse' (API-built): one closure goal VALUE used two or three times in one conjunction (`let g = closure { |t| { .. } }; [g.clone(), g]`), its body introducing fresh and pattern variables that each invocation must bind differently (member / conde / a match arm with alternatives choose a value for the fresh variable, which is then stored in one of the unbound cells of the query variable's list); the answers must equal the reference's, in which every invocation has its own variables. Distinct = distinct (AST, naming); non-trivial = the reference has at least one answer."
     }
     fn assumptions(&self) -> Vec<String> {
         vec!["the clash-maximising emitter only re-uses a name where no variable that the inner scope still refers to would be shadowed (capture-avoiding)".into()]
@@ -27,7 +80,7 @@ impl Check for C15 {
         }
     }
     fn required_counters(&self) -> Vec<&'static str> {
-        vec!["programs_compiled_and_run", "reference_compared", "alpha_twins_compared", "tag_scopes", "tag_match-shadow"]
+        vec!["reuse_reference_compared", "programs_compiled_and_run", "reference_compared", "alpha_twins_compared", "tag_scopes", "tag_match-shadow"]
     }
     fn run_batch(&self, tier: Tier, seed: u64) -> Option<Merged> {
         let (cases, lterms) = Self::build_cases(tier, seed);
@@ -35,6 +88,9 @@ impl Check for C15 {
     }
     fn run_case(&self, gen: &str, seed: u64, index: u64, tier: Tier) -> CaseOut {
         // replay of one surface case (violation files name them `surface:<k>`)
+        if gen == "reuse" {
+            return reuse_case(seed, index);
+        }
         if gen != "surface" {
             return CaseOut::default();
         }
